@@ -1,8 +1,149 @@
-(** placeholder while the proofs are being written *)
-From Coq Require Import ZArith List String.
-From LV Require Import Base.Conc Base.Events Model.MsPq.
+(** Property C11 -- "FCPriorityQueue is linearizable to a sequential max-priority queue.  MSPriorityQueue never
+    loses or duplicates an item, push fails only when capacity items are present, and every history in which no
+    push overlaps a pop is linearizable to a bounded max-priority queue."
+
+    Only statements here; proofs live in LV.Proofs.MsPq*.  The model is LV.Model.MsPq (one [Act] per atomic access
+    of cds::intrusive::MSPriorityQueue, tied to the real code by step correspondence, checks/C11.py).
+
+    [slots_ok cap] / [shape_ok cap] are BOOLEAN facts about cds::bitop::bit_reverse_counter for the capacity at
+    hand (every slot 1 <= slot n <= cap, slots distinct, dec undoes inc, occupied cells form a tree), evaluated by
+    computation: see [C11_mspq_capacities] (true for cap + 1 = 2^k, the only capacities buffers with Exp2 = true
+    can have) and [C11_mspq_unsafe_capacities] (false for 5, 9..13: the code does not reject them).
+
+    ------------------------------------------------------------------------------------------------------------
+    FCPriorityQueue half (owned by the flat-combining work): when coq/Proofs/FcContainers.v exists, add here
+        From LV Require Import Proofs.FcContainers.
+        Theorem C11_fcpq_linearizable : <statement of fcpq_linearizable>.  Proof. exact fcpq_linearizable. Qed.
+        Print Assumptions C11_fcpq_linearizable.
+    Until then the first sentence of C11 is NOT covered by this file (checks/C11.py records in the evidence
+    whether checks/C11fc.py ran).
+    ------------------------------------------------------------------------------------------------------------ *)
+From Coq Require Import ZArith List String Permutation.
+From LV Require Import Base.Conc Base.Events Base.Lin Spec.Specs Model.MsPq
+  Proofs.MsPqBrc Proofs.MsPqInv Proofs.MsPqProofs Proofs.MsPqSeq Proofs.MsPqPhase.
 Import ListNotations.
 Local Open Scope Z_scope.
-Example C11_placeholder :
-  snd (MsPq.run_case [3; 50; 50] [[[1;5;1];[2]]; [[1;7;2]]] [0;1;0;1]%nat 1000) = true.
-Proof. vm_compute. reflexivity. Qed.
+Local Open Scope string_scope.
+
+(** ** never loses or duplicates an item -- every schedule, any number of threads, any programs, any fuels.
+    [heap_items cap g] = the items stored in the cells 1..cap; [invoked tr] = the items of the pushes invoked so
+    far; [given_back tr] = the items handed back to clients (returned by a pop, or refused by a failed push);
+    [held] = the items operations in progress carry between heap and client: at most one per thread, and only
+    threads with an operation in progress ([pend]) have one. *)
+Theorem C11_mspq_conservation :
+  forall cap, slots_ok cap = true ->
+  forall (hf lf : nat) (ths : list (list MsPq.op)) c,
+    Conc.reach (MsPq.init_cfg cap hf lf ths) c ->
+    exists held : list (nat * item),
+      NoDup (map fst held) /\
+      (forall t x, In (t, x) held -> pend (Conc.trace c) t = true) /\
+      Permutation (heap_items cap (Conc.shared c) ++ map snd held ++ given_back (Conc.trace c))
+                  (invoked (Conc.trace c)).
+Proof. exact mspq_conservation. Qed.
+Print Assumptions C11_mspq_conservation.
+
+(** at quiescence: cells + popped + refused = pushed, as multisets *)
+Theorem C11_mspq_conservation_quiescent :
+  forall cap, slots_ok cap = true ->
+  forall (hf lf : nat) (ths : list (list MsPq.op)) c,
+    Conc.reach (MsPq.init_cfg cap hf lf ths) c ->
+    (forall t, pend (Conc.trace c) t = false) ->
+    Permutation (heap_items cap (Conc.shared c) ++ given_back (Conc.trace c)) (invoked (Conc.trace c)).
+Proof. exact mspq_conservation_quiescent. Qed.
+Print Assumptions C11_mspq_conservation_quiescent.
+
+(** no duplication: distinct pushed items are never in two places (two cells, a cell and a result, two results) *)
+Theorem C11_mspq_no_duplicates :
+  forall cap, slots_ok cap = true ->
+  forall (hf lf : nat) (ths : list (list MsPq.op)) c,
+    Conc.reach (MsPq.init_cfg cap hf lf ths) c -> NoDup (invoked (Conc.trace c)) ->
+    NoDup (heap_items cap (Conc.shared c) ++ given_back (Conc.trace c)).
+Proof. exact mspq_no_duplicates. Qed.
+Print Assumptions C11_mspq_no_duplicates.
+
+(** ** push fails only when capacity items are present -- every schedule.
+    The step that decides the failure (under m_Lock) emits the ghost event "g_full n k c" with n = the item
+    counter and k = the number of occupied cells AT THAT INSTANT: [full_events_ok] says n = k = c = capacity for
+    every such event, [fails_ok] that every push that returned false had emitted one (spelled out by
+    [fails_ok_spec] / [just_true_inv] in LV.Proofs.MsPqProofs). *)
+Theorem C11_mspq_push_fails_only_if_full :
+  forall cap, slots_ok cap = true ->
+  forall (hf lf : nat) (ths : list (list MsPq.op)) c,
+    Conc.reach (MsPq.init_cfg cap hf lf ths) c ->
+    full_events_ok cap (Conc.trace c) /\ fails_ok (Conc.trace c) = true.
+Proof. exact mspq_push_fails_only_if_full. Qed.
+Print Assumptions C11_mspq_push_fails_only_if_full.
+
+(** ** single-thread executions refine the bounded max-priority queue, for ALL operation sequences (equal
+    priorities included): the client-visible history of every reachable configuration, identities erased
+    ([phist]), is a prefix of the history [spec_hist] computed by Specs.bpq_step from the empty queue. *)
+Theorem C11_mspq_sequential_refines_pq :
+  forall cap, slots_ok cap = true -> shape_ok cap = true ->
+  forall (hf lf : nat) (os : list MsPq.op) c,
+    Conc.reach (MsPq.init_cfg cap hf lf [os]) c ->
+    exists fut, (phist (Conc.trace c) ++ fut)%list = spec_hist cap [] os.
+Proof. exact mspq_sequential_refines. Qed.
+Print Assumptions C11_mspq_sequential_refines_pq.
+
+(** ** histories without push/pop overlap: the statement (NOT proved in general, see LV.Proofs.MsPqPhase for what
+    is missing; decided per history on the implementation by the verified lincheck) and the proved part *)
+Definition C11_mspq_phase_linearizable_statement : Prop := mspq_phase_linearizable_statement.
+
+Theorem C11_mspq_phase_linearizable_partial :
+  forall cap, slots_ok cap = true -> shape_ok cap = true ->
+  forall (hf lf : nat) (os : list MsPq.op) c,
+    Conc.reach (MsPq.init_cfg cap hf lf [os]) c ->
+    linearizable (BPQueue cap) (hist_of cap (Conc.trace c)).
+Proof. exact mspq_phase_linearizable_partial. Qed.
+Print Assumptions C11_mspq_phase_linearizable_partial.
+
+(** ** capacities *)
+Theorem C11_mspq_capacities :
+  forall k, (k <= 8)%nat -> slots_ok (2 ^ k - 1) = true /\ shape_ok (2 ^ k - 1) = true.
+Proof. exact slots_ok_pow2. Qed.
+Print Assumptions C11_mspq_capacities.
+
+(** capacities in 1..16 for which the counter produces a slot outside the buffer of capacity + 1 cells
+    (only reachable with a buffer whose Exp2 parameter is false): candidate finding, see the report *)
+Theorem C11_mspq_unsafe_capacities :
+  filter (fun c => negb (slots_ok c)) (seq 1 16) = [5; 9; 10; 11; 12; 13]%nat.
+Proof. exact unsafe_capacities_upto_16. Qed.
+Print Assumptions C11_mspq_unsafe_capacities.
+
+(** the model reaches the out-of-bounds access with capacity 5: the fifth push uses m_Heap[6] of a 6-cell buffer *)
+Example C11_mspq_capacity5_out_of_bounds :
+  let r := MsPq.run_case [5; 50; 50] [[[1;1;1]; [1;1;2]; [1;1;3]; [1;1;4]; [1;1;5]]] [] 2000 in
+  existsb (is_cli "ub_oob") (map snd (fst r)) = true /\
+  map MsPqBrc.slot (seq 1 5) = [1; 2; 3; 4; 6]%nat.
+Proof. vm_compute. split; reflexivity. Qed.
+
+(** ** non-vacuity *)
+
+(** a concurrent run (2 threads, capacity 3) in which pushes and pops interleave: it finishes, four items are
+    invoked, two are handed back, two remain in the heap *)
+Example C11_mspq_conservation_nonvacuous :
+  slots_ok 3 = true /\
+  let r := Conc.run 2000 0 [0;1;0;1;1;0;0;1;1;1;0]%nat
+             (MsPq.init_cfg 3 50 50 [[OPush (5, 1); OPush (7, 2); OPop]; [OPush (7, 3); OPop; OPush (1, 4)]]) in
+  snd r = true /\
+  List.length (invoked (Conc.trace (fst r))) = 4%nat /\
+  List.length (given_back (Conc.trace (fst r))) = 2%nat /\
+  List.length (heap_items 3 (Conc.shared (fst r))) = 2%nat.
+Proof. vm_compute. repeat split; reflexivity. Qed.
+
+(** a run with capacity 1 in which a push does fail: the ghost event carries 1 1 1 *)
+Example C11_mspq_full_nonvacuous :
+  let r := MsPq.run_case [1; 50; 50] [[[1;5;1]; [1;7;2]]] [] 2000 in
+  snd r = true /\
+  filter (is_cli "g_full") (map snd (fst r)) = [EvCli "g_full" [1; 1; 1]] /\
+  filter is_fail (fst r) = [(0%nat, EvCli "ret_push" [0; 7; 2])].
+Proof. vm_compute. repeat split; reflexivity. Qed.
+
+(** a sequential run with equal priorities whose whole history is the specification's *)
+Example C11_mspq_sequential_nonvacuous :
+  let os := [OPush (2, 1); OPush (2, 2); OPush (1, 3); OPush (3, 4); OPop; OPop; OPop; OPop; OPop] in
+  let r := Conc.run 5000 0 [] (MsPq.init_cfg 3 50 50 [os]) in
+  slots_ok 3 = true /\ shape_ok 3 = true /\ snd r = true /\
+  phist (Conc.trace (fst r)) = spec_hist 3 [] os /\
+  spec_hist 3 [] os = [[1;2]; [2;1]; [1;2]; [2;1]; [1;1]; [2;1]; [1;3]; [2;0]; [3]; [4;1;2]; [3]; [4;1;2]; [3]; [4;1;1]; [3]; [4;0;0]; [3]; [4;0;0]].
+Proof. vm_compute. repeat split; reflexivity. Qed.
